@@ -354,11 +354,19 @@ def check_sorts(P, R, fn_names, clause, key_field="salience"):
             if op == "sort":
                 R.undecide(clause, "sort:%s" % fn.name, "plain sort(): element order is Rule's Ord, not modelled", fn, c.line)
                 continue
+            first_param = 2      # a closure's first parameter is its environment
+            if not clos:
+                # a named function passed as the key / comparator: `sort_by_key(Self::descending_salience)`
+                items = [strip(fn.sym_operand(a)) for a in c.args]
+                items = [x[2] for x in items if x[0] == "const" and x[1] == "fn" and isinstance(x[2], str) and x[2] in P.fns]
+                if len(items) == 1:
+                    clos = [P.fns[items[0]]]
+                    first_param = 1
             if len(clos) != 1:
                 R.undecide(clause, "sort:%s" % fn.name, "comparator closure of %s not identified" % op, fn, c.line)
                 continue
             cl = clos[0]
-            verdict, why = _descending_on(cl, op, key_field)
+            verdict, why = _descending_on(cl, op, key_field, P, first_param)
             if verdict is True:
                 R.hold(clause, "%s: stable %s, key %s, descending" % (fn.short_name, op, key_field), why, fn, c.line)
                 R.sample({"clause": clause, "fn": fn.name, "sort": op, "comparator": why})
@@ -380,12 +388,17 @@ def _closures_passed(fn, c):
     return out
 
 
-def _descending_on(cl, op, key_field):
+def _descending_on(cl, op, key_field, P=None, first_param=2):
     """Decide whether the closure orders descending by `key_field` only."""
     rets = A.returned_syms(cl)
     if len(rets) != 1:
         return None, "closure has %d return assignments" % len(rets)
     r = strip(rets[0][1])
+    if P is not None:
+        r = strip(A.inline_sym(P, r))      # a key computed by a small helper is read through the helper
+        left = [x[1] for x in walk(r) if x[0] == "call" and x[1] in P.fns]
+        if left:
+            return None, "the key / comparator calls %s, which could not be read through" % left[0]
     txt = fmt_sym(r)
     fields = set(x[2] for x in walk(r) if x[0] == "field" and not x[2].isdigit() and not x[3].startswith("closure"))
     if op in ("sort_by_key", "sort_by_cached_key"):
@@ -407,7 +420,7 @@ def _descending_on(cl, op, key_field):
             return None, "comparator is `%s`, not a single cmp call" % txt
         if fields != {key_field}:
             return False, "comparator reads fields %s" % sorted(fields)
-        lhs, rhs = _param_of(r[2][0]), _param_of(r[2][1])
+        lhs, rhs = _param_of(r[2][0], first_param), _param_of(r[2][1], first_param)
         if lhs is None or rhs is None or lhs == rhs:
             return None, "cannot attribute cmp operands to the closure parameters: %s" % txt
         desc = (lhs > rhs)
@@ -419,9 +432,9 @@ def _descending_on(cl, op, key_field):
     return None, "unmodelled sort %s" % op
 
 
-def _param_of(sym):
+def _param_of(sym, first_param=2):
     ps = [x[1] for x in walk(sym) if x[0] == "param"]
-    ps = [p for p in ps if p >= 2]
+    ps = [p for p in ps if p >= first_param]
     if len(set(ps)) == 1:
         return ps[0]
     return None
